@@ -35,7 +35,7 @@ def shards(tier, seed):
     for k, pair in enumerate(["src", "dst", "pgn", "same-src-other-pgn"]):
         out.append({"name": f"enum-2streams-{pair}", "kind": "enum2", "pair": pair, "tier": tier, "seed": seed})
     out.append({"name": "enum-3streams", "kind": "enum3", "tier": tier, "seed": seed})
-    n_rand = 6 if tier == "quick" else 48
+    n_rand = 6 if tier == "quick" else 192
     for i in range(n_rand):
         out.append({"name": f"random-{i}", "kind": "random", "i": i, "tier": tier, "seed": seed})
     return out
@@ -309,7 +309,7 @@ def enum2(spec, acc):
 def enum3(spec, acc):
     rng = gen.rng_for(spec["seed"], ID, spec["name"])
     quick = spec["tier"] == "quick"
-    for rep in range(20 if quick else 300):
+    for rep in range(20 if quick else 2000):
         a = stream_script(STREAM_A, rng, rng.choice([("ok",), ("perm",), ("loss", "ok")]))
         b = stream_script(STREAM_B_SRC, rng, rng.choice([("ok",), ("dup",), ("perm",)]))
         c = stream_script(STREAM_C, rng, rng.choice([("ok",), ("single", "ok")]))
@@ -322,7 +322,7 @@ def random_histories(spec, acc):
     rng = gen.rng_for(spec["seed"], ID, spec["name"])
     quick = spec["tier"] == "quick"
     streams = [STREAM_A, STREAM_B_SRC, STREAM_B_DST, STREAM_B_PGN, STREAM_C]
-    for h in range(25 if quick else 220):
+    for h in range(25 if quick else 600):
         use = rng.sample(streams, rng.randint(1, 4))
         scripts = []
         for st in use:
